@@ -209,6 +209,9 @@ class Formatter(FormatterInterface):
         b = self(r.body).split("\n")
         for line in b:
             output += f"    {line}\n"
+        if all(line.strip() == "" or line.lstrip().startswith("#") for line in b):
+            # Python needs a statement in the loop body
+            output += "    pass\n"
         return output
 
     @__call__.register
